@@ -935,6 +935,51 @@ fn scenario_logroll(sc: &str) -> Result<Violations, String> {
     // sc = "<number of records>": written one by one with Oplog::try_write_op_log; after each, the last-operation time and the catch-up query are judged
     use nundb::disk_ops::{read_operations_since, Oplog};
     if let Some(f) = sc.strip_prefix("declutter|") { return scenario_declutter(f.parse().map_err(|_| "bad count")?); }
+    if let Some(f) = sc.strip_prefix("same|") {
+        // one replicate-snapshot of many databases writes a RUN of records carrying one operation id, longer than an oplog file (20 records here): the roll-overs inside the run
+        // must lose none of them - a catch-up query since that id names every database of the run
+        let n: u64 = f.parse().map_err(|_| "bad count")?;
+        Oplog::clean_op_log_metadata_files();
+        let mut v: Violations = vec![];
+        let ok = catch_unwind(AssertUnwindSafe(|| {
+            let mut viol: Violations = vec![];
+            let mut stream = Oplog::get_log_file_append_mode();
+            let _ = Oplog::try_write_op_log(&mut stream, Some(1), 0, &ReplicateOpp::Update, 1001);
+            let _ = Oplog::try_write_op_log(&mut stream, Some(1), 1, &ReplicateOpp::Update, 1002);
+            for i in 0..n { let _ = Oplog::try_write_op_log(&mut stream, Some(10 + i), 7, &ReplicateOpp::Snapshot, 2000); }
+            let since = read_operations_since(2000);
+            let all = (0..n).all(|i| since.get(&format!("{}_7", 10 + i)).map_or(false, |o| o.timestamp == 2000));
+            if std::env::var("VERIF_TRACE").is_ok() && !all { eprintln!("answered {} of {}", (0..n).filter(|i| since.contains_key(&format!("{}_7", 10 + i))).count(), n); }
+            for l in ["C12.all-files-after", "C12.at", "C12.every-operation-logged", "C12.never-forgets"] { chk(&mut viol, l, all); }
+            chk(&mut viol, "C12.last-op-time", Oplog::last_op_time() == 2000);
+            let early = read_operations_since(1001);
+            chk(&mut viol, "C12.all-files-after", early.contains_key("1_0") && early.contains_key("1_1") && (0..n).all(|i| early.contains_key(&format!("{}_7", 10 + i))));
+            viol
+        }));
+        match ok { Ok(x) => v.extend(x), Err(_) => v.push("C10.safety".into()) }
+        Oplog::clean_op_log_metadata_files();
+        return Ok(v);
+    }
+    if let Some(f) = sc.strip_prefix("discard|") {
+        // the start-up step that DISCARDS the log (Oplog::clean_op_log_metadata_files, run when the valid flag is not set): afterwards no record is left, in the live file or in
+        // any rotated file - records that survived would be decoded through a key map that no longer matches them
+        let n: u64 = f.parse().map_err(|_| "bad count")?;
+        Oplog::clean_op_log_metadata_files();
+        let mut v: Violations = vec![];
+        let ok = catch_unwind(AssertUnwindSafe(|| {
+            let mut viol: Violations = vec![];
+            { let mut stream = Oplog::get_log_file_append_mode(); for i in 1..=n { let _ = Oplog::try_write_op_log(&mut stream, Some(1), i, &ReplicateOpp::Update, 1000 + i); } }
+            let before = read_operations_since(0).len();
+            Oplog::clean_op_log_metadata_files();
+            let after = read_operations_since(0);
+            if std::env::var("VERIF_TRACE").is_ok() { eprintln!("records answered before the discard: {}, after: {}", before, after.len()); }
+            chk(&mut viol, "C16.discard-removes-the-whole-log", after.is_empty() && Oplog::last_op_time() == 0);
+            viol
+        }));
+        match ok { Ok(x) => v.extend(x), Err(_) => v.push("C10.safety".into()) }
+        Oplog::clean_op_log_metadata_files();
+        return Ok(v);
+    }
     let n: u64 = sc.parse().map_err(|_| "bad count")?;
     Oplog::clean_op_log_metadata_files();
     let mut v: Violations = vec![];
@@ -1007,7 +1052,8 @@ fn scenario_declutter(n_files: usize) -> Result<Violations, String> {
     Oplog::clean_op_log_metadata_files();
     Ok(v)
 }
-fn all_logroll_scenarios() -> Vec<String> { vec!["19".into(), "21".into(), if deep() { "130".into() } else { "45".into() }, "declutter|9".into(), "declutter|12".into(), if deep() { "declutter|30".into() } else { "declutter|15".into() }] }
+fn all_logroll_scenarios() -> Vec<String> { vec!["19".into(), "21".into(), if deep() { "130".into() } else { "45".into() }, "declutter|9".into(), "declutter|12".into(), if deep() { "declutter|30".into() } else { "declutter|15".into() },
+    "same|5".into(), "same|45".into(), "same|70".into(), "discard|5".into(), "discard|45".into(), "discard|130".into()] }
 
 // ------------------------------------------------------------------ family: linktag (C07: the peer tag of a cluster link follows the LAST role the peer announced)
 fn scenario_linktag(sc: &str) -> Result<Violations, String> {
@@ -1350,7 +1396,10 @@ fn scenario_permchange(sc: &str) -> Result<Violations, String> {
     // sc = "<user idx>|<new list idx>|<first cmd idx>|<second cmd idx>": the user logs in and runs the first command (decided by the list stored then), an administrator
     // replaces the user's permission list, the user runs the second command: it must be decided by the list stored NOW
     let p: Vec<usize> = sc.split('|').map(|x| x.parse().unwrap_or(99)).collect();
-    if p.len() != 4 || p[0] >= PC_USERS.len() || p[1] >= PC_LISTS.len() || p[2] >= PC_CMDS.len() || p[3] >= PC_CMDS.len() { return Err("bad scenario".into()); }
+    // list index PC_LISTS.len() stands for REVOKED: the user's permission key had reached the disk (snapshot) and the administrator removes it - it stays in memory as a tombstone;
+    // a user without a permission list reaches no key
+    let revoked = p.len() == 4 && p[1] == PC_LISTS.len();
+    if p.len() != 4 || p[0] >= PC_USERS.len() || (p[1] >= PC_LISTS.len() && !revoked) || p[2] >= PC_CMDS.len() || p[3] >= PC_CMDS.len() { return Err("bad scenario".into()); }
     let (user, login) = PC_USERS[p[0]];
     let w = mk_world(0);
     let mut v: Violations = vec![];
@@ -1360,19 +1409,26 @@ fn scenario_permchange(sc: &str) -> Result<Violations, String> {
     run_cmd(&w, &mut c, &mut rx, login);
     let out = catch_unwind(AssertUnwindSafe(|| run_cmd(&w, &mut c, &mut rx, PC_CMDS[p[2]].0)));
     if out.is_err() { v.push("C10.safety".into()); return Ok(v); }
-    let (r, _) = run_cmd(&w, &mut admin, &mut arx, &format!("set-permissions {} {}", user, PC_LISTS[p[1]]));
-    if is_err(&r) { return Err("set-permissions refused".into()); }
+    if revoked {
+        let pk = format!("$$permission_${}", user);
+        let had = { let m = w.dbs.map.read().unwrap(); let db = m.get("d").unwrap(); match db.get_value(pk.clone()) { Some(val) => { db.set_value_as_ok(&pk, &val, 21, 22, val.opp_id); true } None => false } };
+        let (r, _) = run_cmd(&w, &mut admin, &mut arx, &format!("remove {}", pk));
+        if is_err(&r) && had { return Err("remove of the permission key refused".into()); }
+    } else {
+        let (r, _) = run_cmd(&w, &mut admin, &mut arx, &format!("set-permissions {} {}", user, PC_LISTS[p[1]]));
+        if is_err(&r) { return Err("set-permissions refused".into()); }
+    }
     let (cmd, key, kind) = PC_CMDS[p[3]];
     let out = catch_unwind(AssertUnwindSafe(|| run_cmd(&w, &mut c, &mut rx, cmd)));
     let (r, _msgs) = match out { Ok(x) => x, Err(_) => { v.push("C10.safety".into()); return Ok(v); } };
-    let allowed = ref_list_grants(PC_LISTS[p[1]], key, kind);
+    let allowed = if revoked { false } else { ref_list_grants(PC_LISTS[p[1]], key, kind) };
     let denied = matches!(&r, Response::Error { msg } if msg == "permission denied\n");
     for l in ["C09.list-decides", "C09.permission-gate", "C09.current-list-decides"] { chk(&mut v, l, if allowed { !denied } else { is_err(&r) }); }
     Ok(v)
 }
 fn all_permchange_scenarios() -> Vec<String> {
     let mut out = vec![];
-    for u in 0..PC_USERS.len() { for l in 0..PC_LISTS.len() { for a in 0..PC_CMDS.len() { for b in 0..PC_CMDS.len() { out.push(format!("{}|{}|{}|{}", u, l, a, b)); } } } }
+    for u in 0..PC_USERS.len() { for l in 0..=PC_LISTS.len() { for a in 0..PC_CMDS.len() { for b in 0..PC_CMDS.len() { out.push(format!("{}|{}|{}|{}", u, l, a, b)); } } } }
     out
 }
 
@@ -1461,7 +1517,9 @@ fn scenario_arbiter(sc: &str) -> Result<Violations, String> {
         let mut ch = Change::new("k".into(), value.clone(), version);
         ch.opp_id = opp_id;
         let _ = db.resolve_conflit(ch, &dbs);
-        let remaining = order.len() - step - 1;
+        // how many of the queued conflicts are still unanswered (an answer may arrive twice - two arbiters, or a notice re-sent at registration: the repeat settles nothing new)
+        let answered: std::collections::HashSet<usize> = order[..=step].iter().cloned().filter(|i| *i < parsed.len()).collect();
+        let remaining = parsed.len() - answered.len();
         let e = db.get_value("k".into()).unwrap();
         if remaining > 0 {
             // something is still pending: the key must stay in conflict (later writes keep queueing)
@@ -1472,7 +1530,7 @@ fn scenario_arbiter(sc: &str) -> Result<Violations, String> {
         }
     }
     // once everything is resolved a newly registered arbiter is sent nothing, and the resolved notices are gone
-    if order.len() == nconf {
+    if order.iter().cloned().collect::<std::collections::HashSet<usize>>().len() == nconf {
         let (arb3, mut arx3) = Client::new_empty_and_receiver();
         db.register_arbiter(&arb3);
         chk(&mut v, "C13.redeliver", drain(&mut arx3).is_empty());
@@ -1481,7 +1539,7 @@ fn scenario_arbiter(sc: &str) -> Result<Violations, String> {
     Ok(v)
 }
 fn all_arbiter_scenarios() -> Vec<String> {
-    vec!["1|0", "2|01", "2|10", "3|012", "3|021", "3|102", "3|120", "3|201", "3|210", "1|0|away", "2|01|away", "2|10|away", "restart|S|1", "restart|R|1", "restart|S|2", "restart|R|3", "restart|Sc|1", "restart|Rc|1", "restart|Sc|2"].into_iter().map(|x| x.to_string()).collect()
+    vec!["1|0", "2|01", "2|10", "3|012", "3|021", "3|102", "3|120", "3|201", "3|210", "2|001", "2|110", "3|0012", "3|0102", "3|1012", "3|2201", "1|0|away", "2|01|away", "2|10|away", "restart|S|1", "restart|R|1", "restart|S|2", "restart|R|3", "restart|Sc|1", "restart|Rc|1", "restart|Sc|2"].into_iter().map(|x| x.to_string()).collect()
 }
 
 // ------------------------------------------------------------------ family: watch (subscription windows, sequential)
@@ -2412,7 +2470,7 @@ fn family_props(fam: &str) -> &'static [&'static str] {
         "store" => &["C01", "C02", "C03", "C08"], "strategy" => &["C02", "C13", "C19"], "pending" => &["C15"], "ids" => &["C16"], "keymap" => &["C16"],
         "oplog" => &["C05", "C12"], "session" => &["C01", "C08", "C09"], "permchange" => &["C09"], "arbiter" => &["C06", "C13"], "watch" => &["C03"], "lines" => &[], "flood" => &[],
         "connections" => &["C17"], "snapshot" => &["C01", "C02", "C06", "C19"], "resync" => &["C05"], "election" => &["C07"], "http" => &["C20"], "httpserver" => &["C08", "C09", "C17", "C20"], "tcpserver" => &["C03", "C17"], "race" => &["C01", "C02"], "oplogdisk" => &["C16"], "wsserver" => &["C03", "C17", "C20"],
-        "values" => &["C01", "C03"], "forward" => &["C08", "C09"], "resub" => &["C03"], "logthread" => &["C05", "C12", "C15"], "logroll" => &["C12"], "linktag" => &["C07"], "replica" => &["C02", "C04", "C05", "C19"], "traffic" => &["C14", "C05", "C02", "C13", "C19", "C04"],
+        "values" => &["C01", "C03"], "forward" => &["C08", "C09"], "resub" => &["C03"], "logthread" => &["C05", "C12", "C15"], "logroll" => &["C12", "C16"], "linktag" => &["C07"], "replica" => &["C02", "C04", "C05", "C19"], "traffic" => &["C14", "C05", "C02", "C13", "C19", "C04"],
         _ => &[],
     }
 }
